@@ -19,7 +19,7 @@ PROP = "C14"
 LEVEL = "exploration"
 
 ATOMS = ["a", " a", "a ", " a ", "\na", "a\nb", "k=v", " k = v ", "k=\nv", "2=v", "02=v", "k= v w ", "x y",
-         "3= p ", "j =w", "m=v\nw", " n = a\n b "]
+         "3= p ", "j =w", "m=v\nw", " n = a\n b ", " 4 =q", "\n5 = r\n", "²=s", "٣=t"]
 SMALL = ["a", " b ", "k=v", "2=w", "\nc"]
 ECHO = r"""
 local e = {}
@@ -37,7 +37,7 @@ return e
 
 def key_of(k):
     k = k.strip()
-    return int(k) if k.isdigit() and int(k) > 0 else k
+    return int(k) if k.isascii() and k.isdigit() and int(k) > 0 else k
 
 
 def ref(lst):
